@@ -1125,6 +1125,17 @@ func specAsFatal(e any) *fatalError { p, _ := e.(*fatalError); return p }
 //@   ensures lastErr("runFunc") == nil ==> result == nil
 //@   ensures !specIsFatal(lastErr("runFunc"))
 
+// fieldByIndex: the only panic it raises is errNilPointer - a runtimeError, which
+// convertPanic turns into a recoverable PanicError for OpField, OpSetField and
+// OpAddr - never a panic of the reflect package, which would reach the host as
+// a fatal error (C05, C12). Kind, IsNil, Elem and Field panic only on a kind
+// mismatch, which type checking excludes for the field paths the emitter stores.
+//@ func (*VM).fieldByIndex
+//@   props C05 C12
+//@   panics allowed
+//@   requires vm.fn != nil && int(i) < len(vm.fn.FieldIndexes)
+//@   panicpost panicval == any(errNilPointer)
+
 // PanicError accessors.
 //@ func (*PanicError).Next
 //@   props C12
